@@ -18,6 +18,7 @@ REGISTRY = {
     "C03": ("vf.props.parser", "C03"),
     "C10": ("vf.props.parser", "C10"),
     "C04": ("vf.props.printer", None),
+    "C05": ("vf.props.evaluate", None),
     "C06": ("vf.props.rules_struct", "C06"),
     "C07": ("vf.props.rules_struct", "C07"),
 }
